@@ -17,13 +17,16 @@ claimed = {
          "contracts + VC generation over go/ssa + SMT (z3/cvc5)"),
  'C02': ("Proved: toInt (integer coercion: ok iff the value is an integer in int range, for all 14 numeric kinds plus decimal and json.Number), toNumber, "
          "typeName, toArray, mapArray, contains; parser arity helpers (every helper ends on `)`, zero arguments is an arity error, name -> node-type table of parser.function). "
-         "Not yet covered: the per-builtin type-error/value-error iff clauses of the string builtins and the evaluate cases that call them.",
+         "string builtins pad_*/split/find_*/replace with count: type and value errors and code-point results; every function node of evaluate passes its evaluated arguments to its helper in order; arity faults are raised exactly at `)`/`,` separators; "
+         "lower/upper/trim*/starts_with/ends_with/replace return exactly the package-strings function of their arguments and raise invalid-type for non-strings; keys/values/items/object wildcard return one element per member (keys: each a member name), "
+         "from_items accepts exactly arrays of [string, value] pairs, reverse reverses arrays element-wise, to_string is the identity on strings, sort/sort_by/max/min type errors, sum/avg folds and type errors. "
+         "Not covered: results of find_*/split/join beyond counts, types and code-point arithmetic; merge/zip/not_null cases of evaluate.",
          "contracts + VC generation over go/ssa + SMT"),
  'C04': ("Proved for every token stream (ghost stream, arbitrary): each production consumes its closing token on every success path (filter, index, selectArray, "
          "selectObject, function*Arg, parse ends on End), list separators are commas, multi-select keys are identifiers, let bindings are `$name =`; lexer: "
          "decodeRune classification, scanners return exactly expression[start:position] ending in their delimiter, position strictly increases; parseError classification. "
          "white space between tokens is exactly space, tab, LF, CR; every AST node parsed or built ends up in the result (linear ghost: nothing parsed is dropped); arity faults only at separators. "
-         "Not covered: completeness (every grammar member compiles), escape validation in quoted identifiers (two defects seen by reading, see DESIGN.md).",
+         "Not covered: completeness (every grammar member compiles); a lone surrogate escape in a quoted identifier is rejected although the grammar admits it.",
          "contracts + VC generation over go/ssa + SMT"),
  'C05': ("Proved: toDecimal is exact per kind and never goes through float for non-float inputs (json.Number through decimal128.Parse of its text); + - * / // % abs ceil floor "
          "and the four comparisons are exactly the decimal128 operation on the operands' decimal values in argument order, Inf/NaN results become ErrInfinity/ErrNotANumber; "
